@@ -157,6 +157,25 @@ def gen_program(rng, big=False):
     return prog
 
 
+def gen_wide_program(rng):
+    """many rules with one domain set each, so that the domain sets spread over several 32-bit words of the bitmap
+    (the kernel caches one word at a time) and the decisive one lies deep in the array"""
+    prog = gen_program(rng)
+    names = list(prog["groups"])
+    rules = []
+    for i in range(rng.randint(36, 110)):
+        k = rng.choice(["full", "suffix", "suffix", "keyword"])
+        conds = [{"kind": "domain", "neg": rng.random() < 0.1, "params": [[k, "h%d.wide%d.net" % (i, i % 7) if k != "keyword" else "kw%dz" % i]]}]
+        if rng.random() < 0.3:
+            kind = rng.choice(["port", "l4proto", "ipversion", "dscp"])
+            conds.insert(rng.randint(0, 1), {"kind": kind, "neg": rng.random() < 0.3, "params": [list(c01.gen_value(rng, kind))]})
+        rules.append({"conds": conds, "out": c01.gen_outbound(rng, prog["groups"])})
+    for r in rules:
+        r["out"]["name"] = r["out"]["name"].replace("must_see", "seen")
+    prog["rules"] = rules + prog["rules"][:2]
+    return prog
+
+
 def gen_packets(rng, prog, n):
     pkts = c01.gen_packets(rng, prog, n)
     has_pname = any(c["kind"] == "pname" for r in prog["rules"] for c in r["conds"])
@@ -571,7 +590,7 @@ def main(argv):
         def gen(n, big_every=0):
             cs = []
             for i in range(n):
-                prog = gen_program(rng, big=(big_every and i % big_every == 0))
+                prog = gen_wide_program(rng) if (big_every and i % (3 * big_every) == 5) else gen_program(rng, big=(big_every and i % big_every == 0))
                 cs.append(make_case(prog, gen_packets(rng, prog, n_pkt), reload_history(rng), rng))
             return cs
 
